@@ -22,7 +22,7 @@ def compare_with_cpython(res, pid, programs, what, extra_check=None):
             lines.append("dec %s %s 0 %s" % (pd, su, p.hex())); meta.append((i, pd, su))
     impl = C.implrun(lines)
     model = C.modelrun(lines)
-    refs = {}
+    refs, dicts = {}, {}
     stats = {"cpython_ok": 0, "cpython_fail": 0, "compared": 0, "stale": 0, "multi": 0, "cyclic": 0, "map_key_errors": 0}
     stale_seen = None
     corr = []
@@ -32,6 +32,7 @@ def compare_with_cpython(res, pid, programs, what, extra_check=None):
         if key not in refs:
             try:
                 refs[key] = R.pyload(p, su == "1")
+                dicts[key] = R.LAST_DICTS
             except RecursionError:
                 refs[key] = (False, None)
         ok, obj = refs[key]
@@ -45,7 +46,7 @@ def compare_with_cpython(res, pid, programs, what, extra_check=None):
         first = parts(io_)[0]
         is_stale = "~stale" in parts(mo)[0] or "#staleappend" in mo
         try:
-            need_err = R.contains_dict_with_unhashable(obj, pd == "1")
+            need_err = R.contains_dict_with_unhashable(obj, pd == "1") or R.any_dict_with_unhashable(dicts.get(key, []), pd == "1")
         except RecursionError:
             continue
         if need_err:
